@@ -98,8 +98,18 @@ def _content_async(c):
     return gen()
 
 
-def _extensions(spec):
+def _extensions(spec, aio=False):
     ext = dict(spec.get("extensions") or {})
+    if spec.get("trace_log") is not None:
+        # the documented `trace` extension: a callback (plain for the sync API, a coroutine function for the async API) that is told every event
+        log = spec["trace_log"]
+        if aio:
+            async def trace(name, info, _log=log):
+                _log.append(name)
+        else:
+            def trace(name, info, _log=log):
+                _log.append(name)
+        ext["trace"] = trace
     if spec.get("timeouts_obj") is not None:
         ext["timeout"] = spec["timeouts_obj"]  # ONE caller-owned dict object used for several requests (no copy)
     elif spec.get("timeouts") is not None:
@@ -182,11 +192,11 @@ async def async_request(pool, spec: dict) -> dict:
     try:
         if api == "request":
             resp = await pool.request(spec["method"], spec["url"], headers=_headers(spec),
-                                      content=_content_async(spec.get("content")), extensions=_extensions(spec))
+                                      content=_content_async(spec.get("content")), extensions=_extensions(spec, aio=True))
             return _resp_outcome(resp, resp.content, None)
         if api == "stream":
             async with pool.stream(spec["method"], spec["url"], headers=_headers(spec),
-                                   content=_content_async(spec.get("content")), extensions=_extensions(spec)) as resp:
+                                   content=_content_async(spec.get("content")), extensions=_extensions(spec, aio=True)) as resp:
                 parts = []
                 hook = spec.get("_on_response")
                 if hook:
@@ -212,7 +222,7 @@ async def async_request(pool, spec: dict) -> dict:
                 out["partial"] = read != "all"
             return out
         req = httpcore.Request(spec["method"], spec["url"], headers=_headers(spec), content=_content_async(spec.get("content")),
-                               extensions=_extensions(spec))
+                               extensions=_extensions(spec, aio=True))
         resp = await pool.handle_async_request(req)
         try:
             body = await resp.aread()
